@@ -2,7 +2,7 @@
 
 use crate::{Iso3, Point3, Result, UnitVec3, Vector3};
 use parry3d_f64::na::{try_convert, Matrix4, UnitQuaternion};
-use parry3d_f64::na::{Matrix3, Translation3};
+use parry3d_f64::na::{Matrix3, Rotation3, Translation3};
 
 pub trait IsoExtensions3 {
     fn flip_around_x(&self) -> Iso3;
@@ -240,7 +240,10 @@ impl IsoExtensions3 for Iso3 {
 
 fn from_bases(e0: Vector3, e1: Vector3, e2: Vector3, origin: Option<Point3>) -> Result<Iso3> {
     let rot_m = Matrix3::from_columns(&[e0, e1, e2]);
-    let r = UnitQuaternion::from_matrix(&rot_m);
+    // The three axes are orthonormal by construction, so the matrix is a rotation and converts
+    // directly. The iterative closest-rotation search of `from_matrix` starts at the identity
+    // and cannot leave it for a half-turn (e.g. x = -X, y = Y), returning the wrong frame.
+    let r = UnitQuaternion::from_rotation_matrix(&Rotation3::from_matrix_unchecked(rot_m));
     let t = if let Some(o) = origin {
         Translation3::from(o.coords)
     } else {
